@@ -1,7 +1,7 @@
 (* C01 — every subscriber sees items, then at most one terminal, then nothing. *)
-From RxModel Require Import Pipe Flatten GroupBy.
-From RxSpec Require Import FlattenSpec GroupBySpec.
-From RxProofs Require PipeLaws FlattenLaws.
+From RxModel Require Import Pipe Flatten GroupBy Timed.
+From RxSpec Require Import FlattenSpec GroupBySpec TimedSpec.
+From RxProofs Require PipeLaws FlattenLaws TimedLaws TimedGrammar.
 
 (* Any tree of hot inputs (subjects, the same one possibly several times), cold sources, chains of
    single-input operators and two-input operators, of any depth; any sequence of calls on the hot
@@ -42,6 +42,28 @@ Proof. exact PipeLaws.idiom_sees_trace. Qed.
 Theorem C01_closure_idiom_grammar : forall (t : list ev) (live : bool), wf (idiom_log live t) = true.
 Proof. exact PipeLaws.idiom_wf. Qed.
 
+(* The scheduler-using operators and time sources (delay, observe_on, delay_subscription,
+   subscribe_on, debounce, throttle x 3 edges, buffer_with_time, buffer_with_count_and_time,
+   interval, interval_at, timer) between a hot input and the subscriber: for EVERY label sequence
+   (input notifications also after the input's terminal, polls of any task at any time and in any
+   order, clock advances, unsubscribe, queries) what reaches the subscriber is items, at most
+   one terminal, nothing after *)
+Theorem C01_timed_grammar :
+  forall o ls, TimedLaws.not_raw o -> wf (TimedGrammar.delivered (run_timed o ls)) = true.
+Proof. exact TimedGrammar.timed_grammar. Qed.
+
+(* and any trace the operator's predicate accepts - the implementation's traces are judged by it -
+   has that shape *)
+Theorem C01_timed_predicates_imply_grammar :
+  forall o ls out, TimedLaws.not_raw o -> timed_ok o ls out = true -> wf (TimedGrammar.delivered out) = true.
+Proof. exact TimedGrammar.timed_ok_grammar. Qed.
+
+Check C01_timed_grammar : forall o ls, TimedLaws.not_raw o -> wf (TimedGrammar.delivered (run_timed o ls)) = true.
+Check C01_timed_predicates_imply_grammar :
+  forall o ls out, TimedLaws.not_raw o -> timed_ok o ls out = true -> wf (TimedGrammar.delivered out) = true.
+Print Assumptions C01_timed_grammar.
+Print Assumptions C01_timed_predicates_imply_grammar.
+
 Check C01_pipeline_grammar : forall p sts, wf (exec p sts) = true.
 Check C01_chain_on_subtree : forall p os sts, exec (PChain p os) sts = run_hot os (exec p sts).
 Check C01_two_inputs_on_subtrees : forall o a b sts,
@@ -74,3 +96,10 @@ Proof. vm_compute. reflexivity. Qed.
 
 Example C01_wf_rejects : wf [Next (VZ 1); Done; Next (VZ 2)] = false /\ wf [Err 1; Done] = false.
 Proof. split; reflexivity. Qed.
+
+(* the input keeps emitting after its terminal, tasks are polled late and out of order *)
+Example C01_example_timed :
+  TimedGrammar.delivered (run_timed (TDelay 5)
+     [LSrc (Next (VZ 1)); LSrc (Next (VZ 2)); LSrc Done; LSrc (Next (VZ 3)); LRun 0; LRun 1; LRun 2; LAdv 5; LRun 1; LAdv 3; LRun 0; LRun 2; LRun 0])
+  = [Next (VZ 2); Next (VZ 1); Done].
+Proof. vm_compute. reflexivity. Qed.
